@@ -1,5 +1,5 @@
 SPECIFICATION MCSpec
-CONSTANT Variant = "two"
+CONSTANT Variant = "latestart"
 CONSTANT StrictEvents = TRUE
 CONSTANT FixF5 = TRUE
 CONSTANT FixF26 = TRUE
